@@ -3,7 +3,7 @@
 which check caught it in seeded/<id>/meta.json; prints a markdown table.  usage: tools/seed_matrix.py [ids...]"""
 import json, os, subprocess, sys, concurrent.futures as cf
 ROOT = os.path.dirname(os.path.dirname(os.path.abspath(__file__)))
-EXTRA = {"C07-A": ["C01"], "C07-B": ["C02"], "C15-A": ["C19"], "C16-A": ["C19"], "C11-B": ["C19"], "C09-B": ["C19"]}
+EXTRA = {"C15-J": ["C07", "C02"], "C07-A": ["C01"], "C07-B": ["C02"], "C15-A": ["C19"], "C16-A": ["C19"], "C11-B": ["C19"], "C09-B": ["C19"]}
 
 
 def one(sid):
@@ -28,7 +28,7 @@ def one(sid):
 
 
 def main():
-    ids = sys.argv[1:] or sorted(x for x in os.listdir(os.path.join(ROOT, "seeded")) if os.path.isdir(os.path.join(ROOT, "seeded", x)))
+    ids = sys.argv[1:] or sorted(x for x in os.listdir(os.path.join(ROOT, "seeded")) if os.path.isdir(os.path.join(ROOT, "seeded", x)) and not x.startswith("_"))
     mpath = os.path.join(ROOT, "seeded", "MATRIX.json")
     out = json.load(open(mpath)) if os.path.exists(mpath) and sys.argv[1:] else {}
     with cf.ThreadPoolExecutor(3) as ex:
